@@ -704,7 +704,7 @@ class ExprMixin:
             if x is not None:
                 yield st2, None, x
                 continue
-            yield from self.apply_contract(self.get_contract(self.contract.generator), [v], {}, st2, e, "Yield")
+            yield from self.apply_contract(self.get_contract(self.contract.generator), [v], {}, st2, e, self.contract.generator)
 
     def ev_Await(self, e, st):
         for st2, v, x in self.ev(e.value, st):
